@@ -414,7 +414,7 @@ def base_scenarios(tier, seed, max_cells=None, halos=True):
             if nxe * nye > cap_cells:
                 continue
             ms = [
-                ((nxe // 2) * 2, (nye // 2) * 2),
+                (max(2, (nxe // 2) * 2), max(2, (nye // 2) * 2)),
                 (max(2, (nxe // 4) * 2), max(2, (nye // 4) * 2)),
                 (nxe + 2 + nxe % 2, nye + 4 + nye % 2),
                 (max(2, ((nxe - 1) // 2) * 2), max(2, (nye // 3) * 2)),
